@@ -108,7 +108,8 @@ class NullResolver : public ebusd::Resolver {
 // what the harness knows about a slot without looking into the implementation
 struct SlotView {
   bool present = false;
-  int prio = 0;  // as reported by Message::getPollPriority()
+  int prio = 0;  // the REQUESTED priority: digit of the "r<p>" type the message was defined with, or the argument of
+                 // the last setPollPriority call (no message of this world is used by a condition, so no cap applies)
 };
 
 class World {
@@ -118,7 +119,7 @@ class World {
     m_map->setResolver(&m_resolver);
     m_otherMap = new MessageMap(true, "", false);  // like MainLoop::m_newlyDefinedMessages; never polled
     m_otherMap->setResolver(&m_resolver);
-    for (int k = 0; k < MAXSLOT; k++) m_slot[k] = nullptr;
+    for (int k = 0; k < MAXSLOT; k++) { m_slot[k] = nullptr; m_req[k] = -1; }
   }
   ~World() {
     delete m_map;
@@ -149,8 +150,10 @@ class World {
     string body;
     for (int k = 0; k < m_cfg.n; k++) {
       char c = m_cfg.ip[k];
+      m_req[k] = -1;
       if (c == '-') continue;
       body += defLine(k, c - '0');
+      m_req[k] = c - '0';
     }
     bool ok = readCsv(body);
     rebind();
@@ -167,8 +170,27 @@ class World {
   SlotView view(int k) const {
     SlotView v;
     v.present = m_slot[k] != nullptr;
-    v.prio = v.present ? static_cast<int>(m_slot[k]->getPollPriority()) : 0;
+    v.prio = v.present && m_req[k] > 0 ? m_req[k] : 0;
     return v;
+  }
+  int implPrio(int k) const { return m_slot[k] ? static_cast<int>(m_slot[k]->getPollPriority()) : 0; }
+  // first slot whose priority in the implementation is not the requested one, -1 if none
+  int prioProblem() const {
+    for (int k = 0; k < m_cfg.n; k++) if (m_slot[k] && implPrio(k) != (m_req[k] > 0 ? m_req[k] : 0)) return k;
+    return -1;
+  }
+  // the poll queue must hold exactly the defined messages that have a priority, each once ("priority queue with
+  // distinct entries"); only pointers are compared, nothing is dereferenced
+  string queueProblem() const {
+    const vector<Message*>& c = m_map->m_pollMessages.c;
+    int seen[MAXSLOT] = {0, 0, 0, 0};
+    for (Message* m : c) {
+      int k = slotOf(m);
+      if (k < 0) return "queue-dangling";
+      if (++seen[k] > 1) return "queue-not-distinct";
+    }
+    for (int k = 0; k < m_cfg.n; k++) if (m_slot[k] && implPrio(k) > 0 && seen[k] == 0) return "queue-missing";
+    return "";
   }
   bool enabled(const Op& o) const {
     if (o.k == 'G' || o.k == 'L' || o.k == 'C' || o.k == 'Z') return true;
@@ -193,6 +215,7 @@ class World {
     case 'P': {
       bool ret = m_slot[o.slot]->setPollPriority(static_cast<size_t>(o.prio));
       if (ret) m_map->addPollMessage(false, m_slot[o.slot]);
+      m_req[o.slot] = o.prio;
       if (log) { snprintf(b, sizeof(b), "%s  m%d->setPollPriority(%d) -> %d%s\n", o.str().c_str(), o.slot, o.prio, ret, ret ? " ; addPollMessage(false)" : ""); *log += b; }
       break;
     }
@@ -203,6 +226,7 @@ class World {
     case 'A': {
       bool ok = readCsv(defLine(o.slot, o.prio));
       rebind();
+      m_req[o.slot] = o.prio;
       if (log) { snprintf(b, sizeof(b), "%s  define m%d with poll priority %d -> %s\n", o.str().c_str(), o.slot, o.prio, ok ? "ok" : "error"); *log += b; }
       if (!ok || m_slot[o.slot] == nullptr) return false;
       break;
@@ -210,6 +234,7 @@ class World {
     case 'X':
       m_map->remove(m_slot[o.slot]);
       m_slot[o.slot] = nullptr;
+      m_req[o.slot] = -1;
       if (log) { snprintf(b, sizeof(b), "%s  MessageMap::remove(m%d)\n", o.str().c_str(), o.slot); *log += b; }
       break;
     case 'C': {
@@ -245,6 +270,7 @@ class World {
     if (!m_slot[slot]) return false;
     bool ret = m_slot[slot]->setPollPriority(static_cast<size_t>(prio));
     if (ret) m_map->addPollMessage(false, m_slot[slot]);
+    m_req[slot] = prio;
     return true;
   }
   // (remove and) define message `slot` anew with the given priority
@@ -252,6 +278,7 @@ class World {
     if (m_slot[slot]) { m_map->remove(m_slot[slot]); m_slot[slot] = nullptr; }
     bool ok = readCsv(defLine(slot, prio));
     rebind();
+    m_req[slot] = prio;
     return ok && m_slot[slot] != nullptr;
   }
   bool toFront(int slot) {
@@ -282,6 +309,7 @@ class World {
 
   bool heapOk() const {
     const vector<Message*>& c = m_map->m_pollMessages.c;
+    for (Message* m : c) if (slotOf(m) < 0) return true;  // dangling entry: judged by queueProblem(), not dereferenced
     return std::is_heap(c.begin(), c.end(), ebusd::compareMessagePriority());
   }
   size_t queueSize() const { return m_map->m_pollMessages.c.size(); }
@@ -336,6 +364,7 @@ class World {
   const Cfg m_cfg;
   MessageMap* m_map;
   Message* m_slot[MAXSLOT];
+  int m_req[MAXSLOT];
   NullResolver m_resolver;
   MessageMap* m_probeMap = nullptr;
   MessageMap* m_otherMap = nullptr;
